@@ -82,6 +82,23 @@ def _gen0(rng, tier):
         trajs = G.insert_empties(trajs, G.empty_positions(rng, len(trajs)))
         yield {'k': rng.choice(['wt', 'paths']), 'trajs': trajs, 'S': S, 'F': F, 'form': rng.choice(['loa', 'loa', 'obj']),
                'alpha': akind + '+empty', 'mal': None}
+    for _ in range(G.budget(20) if tier == 'quick' else 1500):     # long excursions over 6..12 labels: loops that interleave (x..y..x..z..y)
+        labs, akind = G.alphabet(rng, k=rng.randint(6, 12))
+        trajs = [G.traj(rng, labs, rng.randint(50, 120), sticky=0.1) for _ in range(rng.choice([1, 2]))]
+        present = sorted({v for t in trajs for v in t})
+        if len(present) < 4:
+            continue
+        yield {'k': 'paths', 'trajs': trajs, 'S': [present[0]], 'F': [present[-1]], 'form': rng.choice(['loa', 'lol', 'arr1'] if len(trajs) == 1 else ['loa', 'lol']),
+               'alpha': akind + '+long-excursions', 'mal': None}
+    for _ in range(G.budget(12) if tier == 'quick' else 300):      # narrow integer arrays and basin labels outside that type's range (absent: rejected)
+        base = rng.choice([0, 1])
+        labs = list(range(base, base + rng.randint(3, 5)))
+        trajs = [G.traj(rng, labs, rng.randint(20, 60), sticky=0.5) + labs]
+        dt = rng.choice(['uint8', 'int8', 'int16'])
+        far = {'uint8': [256 + labs[1], -255 + labs[1], 258], 'int8': [256 + labs[0], -256 + labs[2], 128 + labs[1] + 128], 'int16': [65536 + labs[1], -65536 + labs[2]]}[dt]
+        S, F = [labs[0]], [labs[-1]]
+        (S if rng.random() < 0.5 else F).append(rng.choice(far))
+        yield {'k': rng.choice(['wt', 'paths']), 'trajs': trajs, 'S': S, 'F': F, 'form': 'loa', 'alpha': 'narrow-absent', 'mal': 'absent', 'dtypes': [dt]}
     for _ in range(G.budget(6) if tier == 'quick' else 150):       # 40..60 sparsely labelled states, short trajectories, basins of ~20 labels
         k = rng.randint(40, 60)
         step = rng.choice([100, 37, 1000])
